@@ -33,11 +33,56 @@ func (p *Prog) mustWriteFn(f *ssa.Function) bool {
 				ok = true
 			}
 		}
-		if !ok {
+		if !ok && !p.nilGuardNeverTaken(f, r) {
 			return false
 		}
 	}
 	return true
+}
+
+// nilGuardNeverTaken: return r of f is guarded by `param == nil` for a pointer
+// parameter that every call site in the module supplies with the address of a
+// variable (so the guard is a defensive check that cannot fire).
+func (p *Prog) nilGuardNeverTaken(f *ssa.Function, r *ssa.Return) bool {
+	for _, ft := range dominatingFacts(r.Block()) {
+		bo, ok := ft.Cond.(*ssa.BinOp)
+		if !ok || (bo.Op != token.EQL && bo.Op != token.NEQ) || (bo.Op == token.EQL) != ft.Val {
+			continue
+		}
+		x, y := bo.X, bo.Y
+		if isNilConst(x) {
+			x, y = y, x
+		}
+		prm, ok := x.(*ssa.Parameter)
+		if !ok || !isNilConst(y) {
+			continue
+		}
+		idx := -1
+		for i, q := range f.Params {
+			if q == prm {
+				idx = i
+			}
+		}
+		sites := p.Callers(f)
+		if idx < 0 || len(sites) == 0 {
+			continue
+		}
+		all := true
+		for _, site := range sites {
+			args := site.Common().Args
+			if idx >= len(args) {
+				all = false
+				continue
+			}
+			if _, isAlloc := args[idx].(*ssa.Alloc); !isAlloc {
+				all = false
+			}
+		}
+		if all {
+			return true
+		}
+	}
+	return false
 }
 
 // isGlobalLoad: v is a load of the named package-level variable of pkgPath.
